@@ -856,6 +856,20 @@ func (t *Collection) rootAddRef() *rootNodeLoc {
 	return t.root
 }
 
+// rootAddRefIfOpen is rootAddRef for callers that took the handle from a
+// collection map which may have changed since: SetCollection on an existing
+// name, RemoveCollection and Close close the handles they replace (root is
+// nil from then on).  It returns nil for such a handle.
+func (t *Collection) rootAddRefIfOpen() *rootNodeLoc {
+	t.rootLock.Lock()
+	defer t.rootLock.Unlock()
+	if t.root == nil {
+		return nil
+	}
+	t.root.refs++
+	return t.root
+}
+
 func (t *Collection) rootDecRef(r *rootNodeLoc) {
 	verifYield(9) // VerifSiteRootDecRef
 	t.rootLock.Lock()
